@@ -2,6 +2,8 @@
 mod imp;
 mod gen;
 mod c03;
+mod c08;
+mod smoke;
 
 use fp_harness::Tier;
 
@@ -42,6 +44,7 @@ fn main() {
         let v: serde_json::Value = serde_json::from_str(&txt).expect("replay json");
         match id.as_str() {
             "C03" => c03::replay(&v),
+            "C08" => c08::replay(&v),
             _ => {
                 eprintln!("no replay for {id}");
                 2
@@ -50,6 +53,8 @@ fn main() {
     } else {
         match id.as_str() {
             "C03" => c03::run(tier),
+            "C08" => c08::run(tier),
+            "SMOKE" => smoke::run("/tmp/x/smoke"),
             _ => {
                 eprintln!("unknown property {id}");
                 2
